@@ -1238,10 +1238,14 @@ impl<T: ArrayValue> Array<T> {
             return;
         }
         depth = depth.min(self.rank());
-        let trans_count = amnt.unsigned_abs() as usize % self.rank();
         let trans_rank = self.rank() - depth;
         // Early return if nothing would actually happen
-        if trans_rank < 2 || depth + trans_count == self.rank() || trans_count == 0 {
+        if trans_rank < 2 {
+            return;
+        }
+        // Only the axes below the depth are rotated
+        let trans_count = amnt.unsigned_abs() as usize % trans_rank;
+        if trans_count == 0 {
             return;
         }
         self.meta.take_sorted_flags();
